@@ -5,6 +5,8 @@
 //	-mode schemas writes <n> seeded random gqlgen projects (schema files + gqlgen.yml) under -out
 //	-mode gen     runs the REAL api.Generate (+ plugin/stubgen) in -dir (own process: chdir + global registry)
 //	              + the "bindings" projects (bindings.go): scalars / enums bound to hand-written Go types
+//	              + the "root-typed field" projects (rootrefs.go): fields whose type is Query / Mutation /
+//	                Subscription, every shape in both template flavours (method / function syntax)
 //	-mode typerefs real config.TypeReference predicates / Elem() chains on GraphQL type x bound Go type
 //	-mode decls   go/parser over the files generated in -dir: declared identifiers by scope, and the schema
 //	              summary line for the Lean model's `emitted`
@@ -38,6 +40,8 @@ func main() {
 	n := flag.Int("n", 8, "number of random projects (schemas)")
 	corpus := flag.String("corpus", "", "directed bindings corpus (schemas, with -bindings)")
 	withBindings := flag.Bool("bindings", false, "schemas: also write the bindings projects (c17b*)")
+	withRootRefs := flag.Bool("rootrefs", false, "schemas: also write the root-typed-field projects (c17t*)")
+	rootCorpus := flag.String("rootcorpus", "", "directed root-typed-field corpus (schemas, with -rootrefs)")
 	flag.Parse()
 	defer out.Flush()
 	switch *mode {
@@ -47,6 +51,9 @@ func main() {
 		runSchemas(*outDir, *n, *seed, *tier)
 		if *withBindings {
 			writeBindings(*outDir, *seed, *tier, *corpus)
+		}
+		if *withRootRefs {
+			writeRootRefs(*outDir, *seed, *tier, *rootCorpus)
 		}
 	case "typerefs":
 		runTypeRefs(*tier, *seed)
